@@ -346,16 +346,55 @@ Definition eose_frame (upper : bool) (sub_id : pystr) : pystr := s_eose_open ++ 
 (* unrepaired: f'['EOSE','{sub_id}']' *)
 Definition legacy_eose_frame (sub_id : pystr) : pystr := s_eose_open ++ 34 :: sub_id ++ [34; 93].
 
+(* ---------- the two f-strings as templates (what tools/pyfrag.d/frames_c04.py regenerates from the source) ---------- *)
+Inductive piece :=
+| PLit (s : pystr)          (* constant text *)
+| PSubRaw                   (* {sub_id} *)
+| PSubEnc                   (* {encode_basestring(sub_id)} *)
+| PSubDumps                 (* {json_dumps(sub_id)} *)
+| PId | PCreated | PPubkey | PKind | PSig      (* {event.<field>} *)
+| PContentEnc               (* {encode_basestring(event.content)} *)
+| PTags.                    (* {tags} *)
+Definition interp_piece (sub : pystr) (e : rawev) (p : piece) : option pystr :=
+  match p with
+  | PLit s => Some s
+  | PSubRaw => Some sub
+  | PSubEnc => Some (encode_basestring sub)
+  | PSubDumps => Some (rj_string sub)
+  | PId => py_str (r_id e) | PCreated => py_str (r_created_at e) | PPubkey => py_str (r_pubkey e)
+  | PKind => py_str (r_kind e) | PSig => py_str (r_sig e)
+  | PContentEnc => Some (encode_basestring (r_content e))
+  | PTags => render_tags (r_tags e)
+  end.
+Fixpoint interp (sub : pystr) (e : rawev) (t : list piece) : option pystr :=
+  match t with
+  | [] => Some []
+  | p :: r => match interp_piece sub e p, interp sub e r with
+              | Some a, Some b => Some (a ++ b)
+              | _, _ => None
+              end
+  end.
+Definition model_event_template : list piece :=
+  [PLit s_event_open; PSubEnc; PLit s_id; PId; PLit s_created; PCreated; PLit s_pubkey; PPubkey; PLit s_kind; PKind;
+   PLit s_sig; PSig; PLit s_content; PContentEnc; PLit s_tags; PTags; PLit s_close].
+Definition model_eose_template : list piece := [PLit s_eose_open; PSubDumps; PLit [93]].
+
 (* ---------- well-formed (admitted) events ---------- *)
+(* tag items are JSON strings or - because the relay admits them (its own test-suite stores
+   ["expiration", 1672329427]) - JSON integers *)
 Record wevent := mkW { w_id : pystr; w_pubkey : pystr; w_created_at : Z; w_kind : Z;
-                       w_tags : list (list pystr); w_content : pystr; w_sig : pystr }.
-Definition jtags (tags : list (list pystr)) : jv := JArr (map (fun t => JArr (map JStr t)) tags).
+                       w_tags : list (list jv); w_content : pystr; w_sig : pystr }.
+Definition tag_item_ok (i : jv) : bool := match i with JStr _ => true | JInt _ => true | _ => false end.
+Definition tags_ok (tags : list (list jv)) : bool := forallb (forallb tag_item_ok) tags.
+Definition jtags (tags : list (list jv)) : jv := JArr (map JArr tags).
 Definition raw_of (w : wevent) : rawev :=
   mkRaw (JStr (w_id w)) (JStr (w_pubkey w)) (JInt (w_created_at w)) (JInt (w_kind w))
         (jtags (w_tags w)) (w_content w) (JStr (w_sig w)).
-(* what C03's admission check guarantees about the three hex fields (their lengths do not matter here) *)
+(* what C03's admission check guarantees: lower-case hex id/pubkey/sig (their lengths do not matter
+   here), tag items that are strings or integers *)
 Definition hex_fields_ok (w : wevent) : bool :=
   is_lower_hex (w_id w) && is_lower_hex (w_pubkey w) && is_lower_hex (w_sig w).
+Definition event_ok (w : wevent) : bool := hex_fields_ok w && tags_ok (w_tags w).
 
 Definition k_id : pystr := [105; 100].
 Definition k_created : pystr := [99; 114; 101; 97; 116; 101; 100; 95; 97; 116].
@@ -380,20 +419,23 @@ Definition mp_int_ok (z : Z) : bool := (-9223372036854775808 <=? z) && (z <? 184
 Definition utf8_char_ok (c : cp) : bool := ((c <? 55296) || (57343 <? c))%N && (c <? 1114112)%N.
 Definition utf8_ok (s : pystr) : bool := forallb utf8_char_ok s.
 
+Definition item_mp_ok (i : jv) : bool :=
+  match i with JStr s => utf8_ok s | JInt z => mp_int_ok z | _ => false end.
+Definition mp_of_item (i : jv) : mp := match i with JStr s => MStr s | JInt z => MInt z | _ => MStr [] end.
 (* kv.encode_event: row = (VERSION, id_bytes, created_at, kind, fromhex(pubkey), content, tags, fromhex(sig)) *)
 Definition kv_encode (w : wevent) : option (list mp) :=
   match bytes_of_hex (w_id w), bytes_of_hex (w_pubkey w), bytes_of_hex (w_sig w) with
   | Some i, Some p, Some s =>
       if mp_int_ok (w_created_at w) && mp_int_ok (w_kind w) && utf8_ok (w_content w)
-         && forallb (forallb utf8_ok) (w_tags w)
+         && forallb (forallb item_mp_ok) (w_tags w)
       then Some [MInt 1; MBin i; MInt (w_created_at w); MInt (w_kind w); MBin p; MStr (w_content w);
-                 MArr (map (fun t => MArr (map MStr t)) (w_tags w)); MBin s]
+                 MArr (map (fun t => MArr (map mp_of_item t)) (w_tags w)); MBin s]
       else None
   | _, _, _ => None
   end.
-Definition mp_str (m : mp) : option pystr := match m with MStr s => Some s | _ => None end.
-Definition mp_tag (m : mp) : option (list pystr) :=
-  match m with MArr l => all_some (map mp_str l) | _ => None end.
+Definition mp_item (m : mp) : option jv := match m with MStr s => Some (JStr s) | MInt z => Some (JInt z) | _ => None end.
+Definition mp_tag (m : mp) : option (list jv) :=
+  match m with MArr l => all_some (map mp_item l) | _ => None end.
 (* kv.decode_event / matcher: Event(id=data[1].hex(), created_at=data[2], ...); the constructor
    replaces a falsy created_at by the clock and an empty id by a recomputed one (outside the model) *)
 Definition kv_decode (now : Z) (row : list mp) : option wevent :=
@@ -412,18 +454,20 @@ Definition kv_decode (now : Z) (row : list mp) : option wevent :=
 Record dbrow := mkRow { d_id : bytes; d_created_at : Z; d_kind : Z; d_pubkey : bytes;
                         d_tags : pystr; d_sig : bytes; d_content : pystr }.
 Definition sql_int_ok (z : Z) : bool := (-9223372036854775808 <=? z) && (z <? 9223372036854775808).
+Definition item_db_ok (i : jv) : bool := match i with JStr s => utf8_ok s | JInt _ => true | _ => false end.
 Definition db_encode (w : wevent) : option dbrow :=
   match bytes_of_hex (w_id w), bytes_of_hex (w_pubkey w), bytes_of_hex (w_sig w) with
   | Some i, Some p, Some s =>
       if sql_int_ok (w_created_at w) && sql_int_ok (w_kind w) && utf8_ok (w_content w)
-         && forallb (forallb utf8_ok) (w_tags w)
+         && forallb (forallb item_db_ok) (w_tags w)
       then Some (mkRow i (w_created_at w) (w_kind w) p (print true (jtags (w_tags w))) s (w_content w))
       else None
   | _, _, _ => None
   end.
 Definition jv_str (v : jv) : option pystr := match v with JStr s => Some s | _ => None end.
-Definition jv_tag (v : jv) : option (list pystr) :=
-  match v with JArr l => all_some (map jv_str l) | _ => None end.
+Definition jv_item (v : jv) : option jv := if tag_item_ok v then Some v else None.
+Definition jv_tag (v : jv) : option (list jv) :=
+  match v with JArr l => all_some (map jv_item l) | _ => None end.
 (* event_from_tuple *)
 Definition db_decode (now : Z) (r : dbrow) : option wevent :=
   match parse_json (d_tags r), d_id r with
